@@ -216,10 +216,9 @@ def r_best_first(rep, prog):
             c = tm.operand(b.term(s)["discr"])
             if c[0] == "discr" and any(x[0] == "call" and x[1].endswith("ops::function::Fn::call") for x in T.walk(c)):
                 ok_edge = True
-        if not ok_edge:
-            from props.c10 import early_exit_has_result
-            ok_edge = early_exit_has_result(b, prog, d, accs)
-        rep.check(ok_edge, rule, "search_best|consume-early-exit", "left early only with an access result",
+        from props.c10 import early_exit_has_result
+        ok_edge = early_exit_has_result(b, prog, d, accs)     # Ok, or an error other than Memory
+        rep.check(ok_edge, rule, "search_best|consume-early-exit", "left early only with a non-Memory access result",
                   "the consuming loop can be left at bb%d -> bb%d without an access result: the remaining candidates are not tried" % (a, d),
                   b.term(a).get("span"))
 
